@@ -3,9 +3,9 @@ import seqcheck
 
 
 def knobs(r, i):
-    return {"multi": i % 2 == 0, "threads": 1 + i % 3, "cycle_density": i % 4, "ops": 20 + r.below(80), "unsampled": i % 5 == 0}
+    return {"multi": i % 2 == 0, "threads": 1 + i % 3, "cycle_density": i % 4, "ops": 20 + r.below(80), "unsampled": i % 5 == 0, "same_trace_multi": i % 3 == 0}
 
 
 def run(v, tier, seed, replay):
-    seqcheck.run(v, tier, seed, replay, "C02", ["C02"], tree_oracles=["no_panic", "tree", "ids", "contexts"], knobs=knobs,
+    seqcheck.run(v, tier, seed, replay, "C02", ["C02"], tree_oracles=["no_panic", "tree", "ids", "contexts", "exactly_once"], knobs=knobs,
                  n_quick=(700, 100), n_thorough=(80000, 5000))
